@@ -21,7 +21,7 @@ class _File:
         self.items = []       # ("pad", text, size) | ("label", name, exported) | ("probe", tmpl) | ("include", file)
 
 
-def gen_world(rng, max_files=3, allow_include=True, nprobes=(3, 10)):
+def gen_world(rng, max_files=3, allow_include=True, nprobes=(3, 10), plain_prefix=0.0):
     nmain = rng.choice([1, 1, 2, 3][:max_files + 1])
     files = [_File("f%d.mac" % i) for i in range(nmain)]
     incs = []
@@ -57,8 +57,21 @@ def gen_world(rng, max_files=3, allow_include=True, nprobes=(3, 10)):
                 f.items.append(("pad", ".word %o, %o" % (rng.randrange(65536), rng.randrange(65536)), 4))
     # probes
     nprobe = rng.randint(*nprobes)
+    hosts = allf
+    if nmain > 1 and rng.random() < plain_prefix:
+        # every linked file but the last is plain data: nothing in it waits for anything
+        plain = set()
+
+        def mark(f):
+            plain.add(f.name)
+            for it in f.items:
+                if it[0] == "include":
+                    mark(it[1])
+        for f in files[:-1]:
+            mark(f)
+        hosts = [f for f in allf if f.name not in plain] or allf
     for _ in range(nprobe):
-        f = rng.choice(allf)
+        f = rng.choice(hosts)
         f.items.append(("probe", None))
     # shuffle every file's items (includes stay where the shuffle puts them)
     for f in allf:
@@ -286,3 +299,34 @@ def stream_reach(ctx, rng, n, impl):
         if int(a) != t:
             ctx.violation("the processor would reach a different address than the label the source names (across files / includes)",
                           dict(inp, statement=p["src"].split("\n")[0], address=p["addr"], words=ws), expected=t, observed=int(a))
+
+
+def stream_layout(ctx, rng, n, impl, trace_invariant=None):
+    """C02: every label has the address of the byte that follows it, in every file and include of the world"""
+    for _ in range(n):
+        w = gen_world(rng, plain_prefix=0.5)
+        if not w:
+            continue
+        r = assemble_world(impl, w, want_symbols=True)
+        inp = {"files": w["files"], "linked": w["main"], "base": w["base"]}
+        ctx.case(("world", repr(w["files"])), nontrivial=len(w["files"]) > 1)
+        ctx.count("placement-worlds")
+        ctx.count("placement-worlds-%d-linked" % w["main"])
+        if r.outcome != "ok" or r.base != w["base"]:
+            ctx.violation("a program of fixed-size statements was not assembled at its base", inp, expected=w["base"], observed=r.summary())
+            continue
+        got = {}
+        for name, v in r.symbols.items():
+            nm = name[9:].partition(".")[2] if name.startswith(".internal") else name
+            got.setdefault(nm.lower(), set()).add(v)
+        for nm, a in w["labels"].items():
+            ctx.count("placement-labels")
+            if got.get(nm.lower()) != {a}:
+                ctx.violation("a label does not have the address of the byte that follows it", dict(inp, label=nm),
+                              expected=a, observed=sorted(got.get(nm.lower(), [])))
+        for p in w["probes"]:
+            if p["words"] is not None and words_at(w, r, p) != p["words"]:
+                ctx.violation("a data word naming a label does not hold the address of the byte after the label",
+                              dict(inp, statement=p["src"], address=p["addr"]), expected=p["words"], observed=words_at(w, r, p))
+        if trace_invariant is not None and r.trace:
+            trace_invariant(ctx, r, dict(inp, main_paths=[]), {})
